@@ -413,3 +413,12 @@ func condSel(fe, a, b *Element, pickB bool) {
 	}
 	*fe = r
 }
+
+// VerifSumOK: limbs below n times the reduced-output bound (a sum of n reduced elements).
+func VerifSumOK(e *Element, n uint32) bool {
+	ok := true
+	for i := 0; i < 10; i += 2 {
+		ok = ok && e.inner[i] < n<<26 && e.inner[i+1] < n*(1<<25+1<<18)
+	}
+	return ok
+}
